@@ -29,6 +29,9 @@ type Case struct {
 	Steps     []Step       `json:"steps"`
 	// ProbeKinds: call types that, after the RPC probes, must reach every node as well
 	ProbeKinds []string `json:"probe_kinds,omitempty"`
+	// ProbeDeadlineMs > 0: the RPC probes carry a context deadline, shorter than the back-off base
+	// delay (callers with short per-call timeouts must get the node back as well); 0: no deadline
+	ProbeDeadlineMs int `json:"probe_deadline_ms,omitempty"`
 }
 
 var probeKinds = []string{"QC", "QCPerNode", "Async", "Corr", "CorrStream", "Multicast", "MulticastPerNode", "Unicast"}
@@ -51,6 +54,7 @@ func gen(t *rapid.T) Case {
 			c.Mgr.Metadata["verif-shared"] = "all-nodes" // a key the per-node metadata carries as well
 		}
 	}
+	c.ProbeDeadlineMs = rapid.SampledFrom([]int{0, 0, 150}).Draw(t, "probeDeadlineMs")
 	up := make([]bool, n)
 	for s := 0; s < n; s++ {
 		up[s] = rapid.IntRange(0, 3).Draw(t, fmt.Sprintf("down%d", s)) != 0
@@ -186,6 +190,9 @@ func once(c Case) outcome {
 	if len(c.DownAtNew) > 0 {
 		o.classes = append(o.classes, "down-at-creation")
 	}
+	if c.ProbeDeadlineMs > 0 {
+		o.classes = append(o.classes, "probes-with-short-deadline")
+	}
 	// (a) every node (all are up now) is contacted again; (b) the first handled probe gets its reply promptly
 	bo := time.Duration(c.Mgr.BackoffMs) * time.Millisecond
 	for s := 0; s < c.N; s++ {
@@ -193,7 +200,11 @@ func once(c Case) outcome {
 		reached := false
 		for round := 0; time.Now().Before(deadline); round++ {
 			tok := scen.NewTokens(1)
-			call := client.NewCall(1000+idx, tok, uint64(1000+idx), scen.CallSpec{Kind: "RPC", Node: s, Ctx: "cancel"})
+			pspec := scen.CallSpec{Kind: "RPC", Node: s, Ctx: "cancel"}
+			if c.ProbeDeadlineMs > 0 {
+				pspec.Ctx, pspec.DeadlineUs = "deadline", c.ProbeDeadlineMs*1000
+			}
+			call := client.NewCall(1000+idx, tok, uint64(1000+idx), pspec)
 			idx++
 			go call.Issue()
 			// the call is given a long time: if the reply is only read when a back-off timer expires we want to see that
